@@ -3,14 +3,14 @@
 Theorems (coq/props/C07.v over Classes.v / ClassSpec.v / ClassLang.v / ClassesProofs.v): copy-down tables = nearest
 definition in the declared ancestry; invoke = get-then-call; bound methods keep their receiver; `super` is the declared
 superclass; `Self` is the invoking class; derives = declared ancestor; constructors return the instance; no implicit
-super initialisation; the error table; eval_mech = eval_spec for every program outside the known class (and a
-refutation inside it).
+super initialisation; the error table; eval_mech = eval_spec for EVERY program (and a refutation for the model
+variant of the compiler before commit 0fbde2d, whose `super` inside a nested function used the wrong receiver).
 
 Tie, per generated program of the mini-language (ClassLang.v):
  (a) impl == M: printed lines and error outcome of the rendered program, and the harness dump (`classes`, ext_c07.rs)
      of every class object reachable from the globals (name, superclass, metaclass, method tables with the identity of
      each method value = function name / arity / defining line) against M's copy-down tables;
- (b) impl == S: printed lines and error outcome against eval_spec (outside the known class);
+ (b) impl == S: printed lines and error outcome against eval_spec;
  (c) metamorphic: the program with every statement-level `x.m(a)` rewritten to `var t = x.m; t(a)` prints the same."""
 import os
 import re
@@ -32,7 +32,7 @@ ASSUMPTIONS = [
     "module receivers of get/set/invoke are outside the model; the 64-frame limit is modelled (ClassLang.frames_max)",
 ]
 
-KNOWN_SUPER_NESTED = "super-receiver-in-nested-function"
+FIXED_SUPER_NESTED = "super-receiver-in-nested-function"   # fixed in /repo by commit 0fbde2d
 NAMES = "ABCDEFGH"
 
 
@@ -155,7 +155,7 @@ class Gen:
         self.features = set()
         self.nvar = 0
         self.nfun = 0
-        self.allow_known = rng.random() < 0.03    # programs that may fall into the known class
+        self.nested_super = rng.random() < 0.3    # programs with `super` inside functions nested in methods
         self.object_names = rng.random() < 0.45   # programs whose classes override Object's own method names
 
     def lab(self):
@@ -266,12 +266,30 @@ class Gen:
                 ar = vis[n][0] if r.random() < 0.92 else r.randint(0, 2)
                 body.append(S_expr(E_inv("ESelf", n, self.args(ar))))
                 self.features.add("self_call")
-        if kind != "KStatic" and self.allow_known and r.random() < 0.2:
-            # the known class: `super` inside a function nested in the method
-            if parent:
-                body.append(S_fun("inner", [], [S_ret(E_sinv(mname, self.args(len(params))))]))
-                body.append(S_expr(E_call(E_var("inner"), [])))
-                self.features.add("super_in_nested_fn")
+        if self.nested_super and parent and r.random() < 0.3:
+            # `super` inside a function nested in the method: the receiver is the METHOD's self/Self (an upvalue)
+            ar = len(params)
+            style = r.random()
+            if style < 0.45:
+                body.append(S_fun("inner", [], [S_ret(E_sinv(mname, self.args(ar)))]))
+                call = E_call(E_var("inner"), [])
+            elif style < 0.7:
+                # a bound `super.m` taken inside the nested function, called outside it
+                body.append(S_fun("inner", [], [S_ret(E_sget(mname))]))
+                body.append(S_var("sg", E_call(E_var("inner"), [])))
+                call = E_call(E_var("sg"), self.args(ar))
+                self.features.add("super_get_in_nested_fn")
+            else:
+                # two levels of nesting, with a parameter of the inner function as argument
+                body.append(S_fun("outer", ["u"], [S_fun("inner2", [], [S_ret(E_sinv(mname, [E_var("u")] * ar))]),
+                                                  S_ret(E_call(E_var("inner2"), []))]))
+                call = E_call(E_var("outer"), [self.arg()])
+                self.features.add("super_in_doubly_nested_fn")
+            if kind != "KStatic" and r.random() < 0.5:
+                body.append(S_print(E_eq(call, "ESelf")))
+            else:
+                body.append(S_expr(call))
+            self.features.add("super_in_nested_fn")
         rr = r.random()
         if kind == "KStatic":
             if rr < 0.3:
@@ -724,8 +742,23 @@ def fixed_programs():
              S_print(E_inv(E_var("o"), "derives", [E_var("Shape")])),
              S_try([S_print(E_inv(E_var("Shape"), "derives", [E_var("Object")]))]),
              S_print(E_inv(E_var("Circle"), "derives", [E_var("Object")]))]
+    a = S_class("A", None, None, [M_decl("KMethod", "say", [], [S_print(E_str("A.say")), S_ret("ESelf")], 1),
+                                  M_decl("KStatic", "who", [], [S_print("ECapSelf"), S_ret("ECapSelf")], 2)], 3)
+    b = S_class("B", "A", "new", [
+        M_decl("KMethod", "get", [], [S_fun("inner", [], [S_ret(E_sinv("say", []))]), S_ret(E_var("inner"))], 4),
+        M_decl("KMethod", "get2", [], [S_fun("inner", [], [S_ret(E_sget("say"))]), S_ret(E_var("inner"))], 5),
+        M_decl("KMethod", "say", [], [S_print(E_str("B.say"))], 6),
+        M_decl("KStatic", "who", [], [S_fun("inner", [], [S_ret(E_sinv("who", []))]), S_ret(E_call(E_var("inner"), []))], 7)], 8)
+    nested = [a, b, S_var("x", E_inv(E_var("B"), "new", [])),
+              S_print(E_eq(E_call(E_inv(E_var("x"), "get", []), []), E_var("x"))),
+              S_var("g", E_call(E_inv(E_var("x"), "get2", []), [])),
+              S_print(E_eq(E_call(E_var("g"), []), E_var("x"))),
+              S_print(E_eq(E_inv(E_var("B"), "who", []), E_var("B"))),
+              S_print(E_eq(E_inv(E_var("x"), "who", []), E_var("B")))]
     return [{"term": "[" + ";\n ".join(stmts) + "]", "globals": ["Shape", "Polygon", "Square", "Circle", "p", "b", "q", "o"],
-             "features": ["fixed:object_method_override"]}]
+             "features": ["fixed:object_method_override"]},
+            {"term": "[" + ";\n ".join(nested) + "]", "globals": ["A", "B", "x", "g"],
+             "features": ["fixed:super_in_nested_fn"]}]
 
 
 def gen_program(rng, big=False):
@@ -804,10 +837,6 @@ def impl_tables(rec, src):
     return out
 
 
-def known_open(ctx):
-    return any(k.get("class") == KNOWN_SUPER_NESTED for k in ctx.known_open())
-
-
 def compare(ctx, cases, models, recs, recs_meta, stats):
     """returns the list of (index, kind, detail) of failures"""
     fails = []
@@ -831,19 +860,11 @@ def compare(ctx, cases, models, recs, recs_meta, stats):
         if bad:
             fails.append((i, "tables", {"impl": bad, "mech": mtabs}))
         if m["known"]:
-            stats["known_class_programs"] += 1
-            if impl != m["spec"]:
-                stats["known_class_differs"] += 1
-                if impl == m["mech"] and not stats.get("known_reported") and known_open(ctx):
-                    stats["known_reported"] = True
-                    ctx.violation("generated program in the known class: super inside a nested function",
-                                  input={"source": m["src"], "term": c["term"], "globals": c["globals"]},
-                                  expected=m["spec"], actual=impl, known_class=KNOWN_SUPER_NESTED)
-        else:
-            if m["spec"] != m["mech"]:
-                fails.append((i, "M!=S", {"spec": m["spec"], "mech": m["mech"]}))
-            if impl != m["spec"]:
-                fails.append((i, "impl!=S", {"impl": impl, "spec": m["spec"]}))
+            stats["nested_super_programs"] += 1
+        if m["spec"] != m["mech"]:
+            fails.append((i, "M!=S", {"spec": m["spec"], "mech": m["mech"]}))
+        if impl != m["spec"]:
+            fails.append((i, "impl!=S", {"impl": impl, "spec": m["spec"]}))
         if implm != impl:
             fails.append((i, "metamorphic", {"invoke": impl, "get_then_call": implm}))
         if m["mech_meta"] != m["mech"]:
@@ -902,13 +923,10 @@ class Dummy:
     def __init__(self):
         self.broken = []
 
-    def known_open(self):
-        return []
 
 
 def new_stats():
-    return {"model_failed": 0, "model_stuck": 0, "classes_compared": 0, "known_class_programs": 0,
-            "known_class_differs": 0, "nontrivial": set()}
+    return {"model_failed": 0, "model_stuck": 0, "classes_compared": 0, "nested_super_programs": 0, "nontrivial": set()}
 
 
 def report(ctx, cases, models, fails, stats, do_shrink=True):
@@ -969,22 +987,15 @@ print(b.get()() == b);
 '''
 
 
-def finding_probe(ctx):
-    """the recorded finding (notes/C07-findings.json): inside a function nested in a method, `super.m()` passes the
-    nested closure, not the method's self, as the receiver.  Spec: prints A.say, true."""
+def regression_probe(ctx):
+    """the witness of the finding recorded in notes/C07-findings.json (fixed by /repo commit 0fbde2d): inside a function
+    nested in a method, `super.m()` must run with the METHOD's self.  Spec: prints A.say, true."""
     binary = os.environ.get("C07_HARNESS") or ctx.harness("debug")
     rec = yvlib.run_harness(binary, ["run - %s" % hx(FINDING_WITNESS)])[0]
     got = rec.output
-    if got == ["A.say", "true"]:
-        ctx.notes.append("finding %s no longer reproduces (fixed?)" % KNOWN_SUPER_NESTED)
-        return
-    if known_open(ctx):
-        ctx.violation("super inside a nested function binds the nested closure as receiver", input={"source": FINDING_WITNESS},
-                      expected=["A.say", "true"], actual=got, known_class=KNOWN_SUPER_NESTED)
-    else:
-        ctx.notes.append("finding %s reproduces (witness prints %r, Spec: ['A.say','true']); it is recorded in "
-                         "notes/C07-findings.json and reported as KNOWN-FINDING once merged into known_findings.json"
-                         % (KNOWN_SUPER_NESTED, got))
+    if got != ["A.say", "true"] or rec.result[0] != "ok":
+        ctx.violation("super inside a nested function does not use the enclosing method's self (regression of %s)"
+                      % FIXED_SUPER_NESTED, input={"source": FINDING_WITNESS}, expected=["A.say", "true"], actual=got)
 
 
 def refspec_outcome(text):
@@ -1014,7 +1025,7 @@ def other_reference(ctx, cases, models, recs, limit):
     if not all(os.path.exists(os.path.join(yvlib.COQ, "theories", f)) for f in need):
         ctx.notes.append("SpecRun.v/ParseRun.v (full reference interpreter) not built: that comparison is skipped")
         return
-    idx = [i for i, m in enumerate(models) if m and not m["known"]][:limit]
+    idx = [i for i, m in enumerate(models) if m][:limit]
     terms = ['run_case 400 nil "%s"' % hx(models[i]["src"]) for i in idx]
     shard = max(2, min(20, (len(terms) + yvlib.NPROC - 1) // yvlib.NPROC))
     try:
@@ -1049,7 +1060,7 @@ def run(ctx):
     if ctx.replay_only is not None:
         inp = ctx.replay_only.get("input", {})
         if "term" not in inp:
-            finding_probe(ctx)
+            regression_probe(ctx)
             ctx.cov.update({"evaluations": 1, "distinct_nontrivial": 0, "rule": "replay", "samples": [inp]})
             return
         cases = [{"term": inp["term"], "globals": inp.get("globals", []), "features": []}]
@@ -1066,7 +1077,7 @@ def run(ctx):
     models, recs, recsm = run_batch(ctx, cases, "c07", stats)
     fails = compare(ctx, cases, models, recs, recsm, stats)
     report(ctx, cases, models, fails, stats)
-    finding_probe(ctx)
+    regression_probe(ctx)
     other_reference(ctx, cases, models, recs, 32 if ctx.quick() else 200)
     feats = {}
     for c in cases:
@@ -1092,8 +1103,7 @@ def run(ctx):
         "final_outcomes": outcomes,
         "printed_lines_total": sum(lines),
         "classes_compared_with_tables": stats["classes_compared"],
-        "known_class_programs": stats["known_class_programs"],
-        "known_class_programs_where_impl_differs_from_spec": stats["known_class_differs"],
+        "programs_with_super_in_a_nested_function": stats["nested_super_programs"],
         "comparisons_per_program": "impl==M (output, outcome, class tables), impl==S, M==S, metamorphic impl, metamorphic M",
         "traces_validated_against_impl": len(cases),
     })
